@@ -794,15 +794,16 @@ def representation_independence(seed, n):
                 if os.path.exists(p):
                     os.remove(p)
     # relabelled ids (negative, sparse, beyond 2^53) THROUGH a .g2o file: same chi2, same optimization result
-    for i in range(max(2, n // 3)):
-        kind = rng.choice(['SE2', 'SE3'])
+    bases_ = [1000, -1000, 2 ** 31, 2 ** 53, 2 ** 62, -(2 ** 60)]
+    for i in range(max(len(bases_), n // 3)):          # every kind of id at least once per run, whatever the draw
+        kind = ['SE2', 'SE3'][i % 2] if i < len(bases_) else rng.choice(['SE2', 'SE3'])
         g0, _ = oe.build_graph(rng, kind, nv=rng.randint(3, 6), landmarks=False, noise=0.02, pert=0.03, info_cross=False)
         p1 = os.path.join(tempfile.gettempdir(), 'verif_c08_%d_c.g2o' % os.getpid())
         p2 = os.path.join(tempfile.gettempdir(), 'verif_c08_%d_d.g2o' % os.getpid())
         try:
             g0.to_g2o(p1)
             grel = copy.deepcopy(g0)
-            base_id = rng.choice([1000, -1000, 2 ** 31, 2 ** 53, 2 ** 62, -(2 ** 60)])
+            base_id = bases_[i] if i < len(bases_) else rng.choice(bases_)
             idmap = {v.id: base_id + (k + 1) * rng.choice([1, 1, 3]) for k, v in enumerate(grel._vertices)}
             if len(set(idmap.values())) < len(idmap):
                 idmap = {v.id: base_id + k + 1 for k, v in enumerate(grel._vertices)}
